@@ -9,7 +9,7 @@ JUDGE_RELEASE = True
 EXHAUSTIVE = {"quick": False, "thorough": False}
 RULE = ("malformed streams: exhaustive over the alphabet {00,01,02,04,05,06,ff,52} up to length 4 (quick) / 5 (thorough) after a valid greeting; "
         "structure-aware mutations of valid streams (truncations, name/property/value lengths 0/exact/+1/255/2^32-1, 64-bit sizes 2^31..2^64-1, "
-        "1e3..1e5 MORE frames in one read), random bytes; fed to the frame decoder and to all nine socket types at the three handshake stages; "
+        "1e3..1e5 MORE frames in one read, 2e4 consecutive commands), random bytes; fed to the frame decoder and to all nine socket types at the three handshake stages; "
         "distinct = distinct case text; non-trivial = the stream is not a valid ZMTP stream")
 ALPHA = [0x00, 0x01, 0x02, 0x04, 0x05, 0x06, 0xff, 0x52]
 SOCKS = ["PUB", "SUB", "XPUB", "REQ", "REP", "DEALER", "ROUTER", "PUSH", "PULL"]
@@ -77,7 +77,10 @@ def cases(tier, rng):
     for t in SOCKS:
         for s in rng.sample(sample, per) + [W.GREETING + bytes([4, 0]), W.GREETING + bytes([2, 0, 0, 1, 0, 0, 0, 0, 0]),
                                             W.GREETING + W.frame(bytes([5]) + b"READY" + bytes([11]) + b"Socket-Type" + bytes([0, 0, 0, 6]) + b"STREAM", cmd=True),
-                                            W.GREETING + bytes([1, 0]) * 3000 + bytes([0, 0])]:
+                                            W.GREETING + bytes([1, 0]) * 3000 + bytes([0, 0]),
+                                            # tens of thousands of well-formed commands that every recv loop has to skip
+                                            W.GREETING + W.frame(bytes([5]) + b"READY", cmd=True) * 20000,
+                                            W.GREETING + W.frame(bytes([4]) + b"PING" + bytes([0, 0]), cmd=True) * 20000]:
             for stage in (1, 2, 3):
                 if stage == 1:
                     raw = s[64:] if s.startswith(W.GREETING) else s
